@@ -39,12 +39,16 @@ void harness(void)
 	int shape, c, oexists, newer, i, n, st, fo, ff, elen, own, force, partial;
 	char *text;
 	long omtime = 0;
+	env_mkfile("f", "x\n", 2, 5);
+	exh_start(files);		/* shared by all paths */
 	shape = symx_u8("shape");
 	symx_assume(shape < NSHAPES);
 	shape = symx_conc(shape);
 	n = mkshape(shape);
+	filebuf[n] = 0;
 	env_mkfile("f", filebuf, n, 5);
-	exh_start(files);
+	lbuf_edit(xb, filebuf, 0, lbuf_len(xb));	/* as if this content had been loaded */
+	lbuf_saved(xb, 1);
 	/* make the buffer differ from the file */
 	exh_input("new\n.\n");
 	exh_cmd("$a");
